@@ -179,8 +179,10 @@ def tlc(engine, module, cfg, workers=None, timeout=600, simulate=None, depth=Non
         cmd += list(extra or [])
         cmd.append(module + ".tla")
         env = dict(os.environ)
-        if javaopts:
-            env["JAVA_TOOL_OPTIONS"] = javaopts
+        # TLC unpacks its standard modules into java.io.tmpdir on every run: keep that inside the scratch directory
+        jtmp = os.path.join(work, "jtmp")
+        os.makedirs(jtmp, exist_ok=True)
+        env["JAVA_TOOL_OPTIONS"] = ((javaopts + " ") if javaopts else "") + "-Djava.io.tmpdir=" + jtmp
         if env_extra:
             env.update(env_extra)
         t0 = time.time()
